@@ -48,8 +48,16 @@ STRENGTHENED = {
  "C13-i": "user attributes named like every identifier-like string literal of the library's sources",
  "C13-j": "one options table and one hook object for the normal call, the faulting calls and the repeats",
  "C14-i": "distinct classes sharing one `__name__`", "C14-j": "title fields backed by properties (`uid`, a property of the class)",
- "C16-i": "harness vertex subclass with a `__str__` of its own"}
-ROUND = {"a": 1, "b": 1, "c": 2, "d": 3, "e": 4, "f": 5, "g": 6, "h": 6, "i": 7, "j": 7, "k": 7, "l": 7}
+ "C16-i": "harness vertex subclass with a `__str__` of its own",
+ "C03-q": "user edge classes whose instances are falsy (`__bool__` False / `__len__` 0)",
+ "C05-p": "scenario graphs with an unset end and a third member, the unset end then dropped (`unlink_from(None)`)",
+ "C05-q": "per-call filter callables that are unhashable objects (memo stand-ins such as their address die with them)",
+ "C08-q": "oracle: a start vertex that is no member of the (non-empty) universe must be refused; a returned vertex must be a member (was tie-only)",
+ "C14-q": "title formats that index into a tuple attribute and use a `!r` conversion",
+ "C17-q": "constructors that sort a list argument in place; the list given in both orders",
+ "C19-p": "oracle: the pair named by an assignment is bound afterwards ('every such assignment succeeds'; was tie-only)",
+ "C06-p": "NOT caught, and not a violation on the domain: `uni not in start.universes` equals `start not in uni.vertices` in every state the public API can reach (C02); its demo needs a `copy.copy` ghost or value-equal twins (boundary, 12.3)"}
+ROUND = {"a": 1, "b": 1, "c": 2, "d": 3, "e": 4, "f": 5, "g": 6, "h": 6, "i": 7, "j": 7, "k": 7, "l": 7, "p": 8, "q": 8}
 
 rows, per_round = [], {}
 for sd in sorted((V / "seeded").iterdir()):
@@ -86,6 +94,8 @@ for sd in sorted((V / "seeded").iterdir()):
         note = (note + "; " if note else "") + "NEUTRALISED on HEAD by fix D27 (no longer a violation; detected on the tree it was written for)"
         if not vs:
             vs = ["(" + name.split("-")[0] + ")"]
+    if meta.get("outside_domain") and not vs:
+        vs = ["(none: equivalent on the domain)"]
     if meta.get("rebased"):
         note = (note + "; " if note else "") + "rebased onto HEAD"
     rows.append(f"| {name} | {files} | {desc} | {' '.join(vs)} | {' '.join(ns)} | {note} |")
@@ -96,7 +106,7 @@ for sd in sorted((V / "seeded").iterdir()):
 clean = M.get("(clean tree)", {})
 clean_ok = all(v == "-" for v in clean.values()) and len(clean) == 20
 tally = ", ".join(f"{s} of {n} in round {r}" for r, (n, s) in sorted(per_round.items()))
-text = f"""Seven rounds of seeded changes (variants `a`+`b` = round 1, `c` = round 2, `d` = round 3, `e` = round 4, `f` = round 5, `g`+`h` = round 6: one- to three-line slips, `i`-`l` = round 7: aimed at the files and functions the earlier rounds had left alone; {len(rows)} in
+text = f"""Eight rounds of seeded changes (variants `a`+`b` = round 1, `c` = round 2, `d` = round 3, `e` = round 4, `f` = round 5, `g`+`h` = round 6: one- to three-line slips, `i`-`l` = round 7 and `p`+`q` = round 8: aimed at the files (7) and functions (8) the earlier rounds had left alone; {len(rows)} in
 all), every one written by a fresh sub-agent that saw only the property text and a scratch worktree (later rounds also a one-line
 list of the earlier ideas and idea families, to be avoided), and kept only after `tools/evalseed.py` had confirmed in a scratch
 worktree that it applies, that the unedited suite still reports `652 passed`, and that its demo fails with it and passes without.
@@ -104,11 +114,12 @@ Stored as `seeded/<id>/` (`patch.diff`, `demo.py`, `notes.md`, `meta.json`; wher
 change was re-created on HEAD and the original kept as `patch.orig.diff`). **Every one is detected by the check of its target
 property** - except C05-e and C10-b, which fix D27 turned into harmless code (their own demos pass on HEAD; they were detected on the
 tree they were written for), and C15-h, which was aimed at C15 but breaks C03 / C01 (the checks of those report it; the pyvis export
-agrees with the structure it is given, so C15's check is right to stay silent). Column V = `VIOLATION` with a failing input; N = `no-failing-input-found`: the tie or a proof obligation
+agrees with the structure it is given, so C15's check is right to stay silent), and C06-p, whose change is equivalent to the original
+on every state the public API can reach (its demo builds a `copy.copy` ghost). Column V = `VIOLATION` with a failing input; N = `no-failing-input-found`: the tie or a proof obligation
 broke and the property's own oracle found nothing - typical for a check whose model shares the changed code but whose property the
 change does not break. The target's own column is from the latest `tools/crossmatrix.py --target-only` on HEAD (`seeded/targetsweep.json`); the other
 columns, for variants a-d, from the full run of every quick check against every seed on scratch copies made after round 3
-(`seeded/crossmatrix.json`; a full run takes 5-8 hours and was not repeated for rounds 4 to 7); the row for the unchanged tree
+(`seeded/crossmatrix.json`; a full run takes 5-8 hours and was not repeated for rounds 4 to 8); the row for the unchanged tree
 has {'no alarm' if clean_ok else 'ALARMS - see the json'} in both files. "strengthened" names what had to be added to the
 harness before the seed was caught: {tally}; each addition is a generator / oracle generalisation, none special-cases a seed. The
 shrunk failing cases are kept as `corpus/<pid>/` and run first on every check.
@@ -129,7 +140,10 @@ test, arguments passed empty and filled later, vertices that all compare equal, 
 never return (engine watchdog); from round 7: repeated `universes=` entries, shared uids in structure histories, metaclass-bearing
 by-value classes, lawless universes, functions pickled with their globals and dill's own settings, accessors on empty objects, user
 attributes colliding with the library's string literals, caller-owned option tables reused across calls, same-named classes,
-property-backed title fields, vertex classes with their own `__str__`.
+property-backed title fields, vertex classes with their own `__str__`; from round 8: falsy edge classes, per-call unhashable
+filters, half-assigned links losing their unset end, constructors that normalise their arguments in place, format-spec features in
+titles, and two oracle clauses that had been left to the tie (start-vertex membership for traversals and searches; "every
+assignment succeeds" for law sets).
 """
 s = (V / "DESIGN.md").read_text()
 a = s.index("### 12.5 Seeded changes")
